@@ -181,6 +181,156 @@ theorem rr_window_injective (n a j1 j2 : Nat) (hn : 0 < n) (h1 : j1 < n) (h2 : j
 
 theorem rr_periodic (n a j : Nat) : (a + j + n) % n = (a + j) % n := Nat.add_mod_right _ _
 
+theorem add_mod_self_mul (n c r : Nat) (hr : r < n) : (n * c + r) % n = r := by
+  rw [Nat.mul_add_mod, Nat.mod_eq_of_lt hr]
+
+/-- every residue is hit in a window of n consecutive counters -/
+theorem rr_window_surj (n a r : Nat) (hr : r < n) : ∃ j, j < n ∧ (a + j) % n = r := by
+  have hn : 0 < n := by omega
+  have ha := Nat.div_add_mod a n
+  have hm : a % n < n := Nat.mod_lt _ hn
+  generalize hq : a / n = q at ha
+  generalize hmm : a % n = m at ha hm
+  by_cases hge : m ≤ r
+  · refine ⟨r - m, by omega, ?_⟩
+    have : a + (r - m) = n * q + r := by omega
+    rw [this]; exact add_mod_self_mul n q r hr
+  · refine ⟨r + n - m, by omega, ?_⟩
+    have : a + (r + n - m) = n * (q + 1) + r := by rw [Nat.mul_add, Nat.mul_one]; omega
+    rw [this]; exact add_mod_self_mul n (q + 1) r hr
+
+/-- slots chosen by k consecutive round-robin calls starting at counter a over n candidates -/
+def slots (n a k : Nat) : List Nat := (List.range k).map (fun j => (a + j) % n)
+
+theorem slots_window_nodup (n a : Nat) (hn : 0 < n) : (slots n a n).Nodup := by
+  unfold slots List.Nodup
+  rw [List.pairwise_map]
+  exact List.Pairwise.imp_of_mem (fun {x y} hx hy hne heq =>
+    hne (rr_window_injective n a x y hn (List.mem_range.mp hx) (List.mem_range.mp hy) heq)) List.nodup_range
+
+theorem slots_window_count (n a r : Nat) (hr : r < n) : (slots n a n).count r = 1 := by
+  rw [(slots_window_nodup n a (by omega)).count]
+  obtain ⟨j, hj, he⟩ := rr_window_surj n a r hr
+  have : r ∈ slots n a n := List.mem_map.mpr ⟨j, List.mem_range.mpr hj, he⟩
+  simp [this]
+
+theorem slots_add (n a k m : Nat) : slots n a (k + m) = slots n a k ++ slots n (a + k) m := by
+  unfold slots
+  rw [List.range_add, List.map_append, List.map_map]
+  congr 1
+  apply List.map_congr_left
+  intro j _
+  simp [Nat.add_assoc]
+
+theorem slots_count_le_one (n a k r : Nat) (hn : 0 < n) (hk : k ≤ n) : (slots n a k).count r ≤ 1 := by
+  have h := slots_add n a k (n - k)
+  rw [show k + (n - k) = n by omega] at h
+  have hnd := List.nodup_iff_count.mp (slots_window_nodup n a hn) r
+  rw [h, List.count_append] at hnd
+  omega
+
+/-- FAIRNESS.  Over any number k of sequential round-robin calls the per-slot counts of any two of
+the n candidates differ by at most one. -/
+theorem slots_balanced (n : Nat) (hn : 0 < n) : ∀ (k a r1 r2 : Nat), r1 < n → r2 < n →
+    (slots n a k).count r1 ≤ (slots n a k).count r2 + 1 := by
+  intro k
+  induction k using Nat.strongRecOn with
+  | _ k ih =>
+    intro a r1 r2 h1 h2
+    by_cases hk : k ≤ n
+    · have := slots_count_le_one n a k r1 hn hk; omega
+    · have hs := slots_add n a n (k - n)
+      rw [show n + (k - n) = k by omega] at hs
+      rw [hs, List.count_append, List.count_append, slots_window_count n a r1 h1, slots_window_count n a r2 h2]
+      have := ih (k - n) (by omega) (a + n) r1 r2 h1 h2
+      omega
+
+
+
+theorem candidates_nodup (ss : List Server) : (candidates ss).Nodup := by
+  unfold candidates
+  split <;> exact List.Pairwise.filter _ List.nodup_range
+
+/-- k sequential round-robin requests against a fixed health vector, threading the counter -/
+def rrRun (ss : List Server) : Nat → Nat → List (Option Nat)
+  | 0, _ => []
+  | k + 1, rr => (next .roundRobin ss rr 0).1 :: rrRun ss k (next .roundRobin ss rr 0).2
+
+theorem rrRun_eq_slots (ss : List Server) (hn : (candidates ss).length ≠ 0) :
+    ∀ (k rr : Nat), rr + k < 4294967296 →
+      rrRun ss k rr = (slots (candidates ss).length (rr + 1) k).map (fun j => (candidates ss)[j]?) := by
+  intro k
+  induction k with
+  | zero => intro rr _; simp [rrRun, slots]
+  | succ k ih =>
+    intro rr h
+    have hs := slots_add (candidates ss).length (rr + 1) 1 k
+    rw [show 1 + k = k + 1 by omega] at hs
+    have hm : (rr + 1) % 4294967296 = rr + 1 := Nat.mod_eq_of_lt (by omega)
+    rw [hs, rrRun]
+    have hnext : next .roundRobin ss rr 0 = ((candidates ss)[(rr + 1) % (candidates ss).length]?, rr + 1) := by
+      unfold next; simp only [hn, if_false, hm]
+    rw [hnext, ih (rr + 1) (by omega)]
+    simp [slots]
+
+theorem count_map_inj {g : Nat → Option Nat} {n i : Nat} (hi : i < n)
+    (hinj : ∀ x, x < n → g x = g i → x = i) :
+    ∀ l : List Nat, (∀ x ∈ l, x < n) → (l.map g).count (g i) = l.count i := by
+  intro l
+  induction l with
+  | nil => intro _; rfl
+  | cons x l ih =>
+    intro h
+    rw [List.map_cons, List.count_cons, List.count_cons, ih (fun y hy => h y (List.mem_cons_of_mem _ hy))]
+    have hx := h x List.mem_cons_self
+    by_cases he : x = i
+    · subst he; simp
+    · have : g x ≠ g i := fun hg => he (hinj x hx hg)
+      simp [he, this]
+
+theorem slots_lt (n a k : Nat) (hn : 0 < n) : ∀ x ∈ slots n a k, x < n := by
+  intro x hx
+  obtain ⟨j, _, rfl⟩ := List.mem_map.mp hx
+  exact Nat.mod_lt _ hn
+
+/-- FAIRNESS of round robin (full statement, no counter wrap inside the run): over k sequential
+requests against a fixed health vector, the numbers of requests sent to any two candidate servers
+differ by at most one. -/
+theorem rr_fair (ss : List Server) (k rr c1 c2 : Nat) (hw : rr + k < 4294967296)
+    (h1 : c1 ∈ candidates ss) (h2 : c2 ∈ candidates ss) :
+    (rrRun ss k rr).count (some c1) ≤ (rrRun ss k rr).count (some c2) + 1 := by
+  obtain ⟨i1, hi1, he1⟩ := List.mem_iff_getElem.mp h1
+  obtain ⟨i2, hi2, he2⟩ := List.mem_iff_getElem.mp h2
+  have hn : (candidates ss).length ≠ 0 := by omega
+  have hnd := candidates_nodup ss
+  have g1 : (candidates ss)[i1]? = some c1 := by rw [List.getElem?_eq_getElem hi1, he1]
+  have g2 : (candidates ss)[i2]? = some c2 := by rw [List.getElem?_eq_getElem hi2, he2]
+  rw [rrRun_eq_slots ss hn k rr hw, ← g1, ← g2]
+  rw [count_map_inj (g := fun j => (candidates ss)[j]?) hi1
+        (fun x hx hg => (List.getElem?_inj hx hnd).mp hg) _ (slots_lt _ _ _ (by omega)),
+      count_map_inj (g := fun j => (candidates ss)[j]?) hi2
+        (fun x hx hg => (List.getElem?_inj hx hnd).mp hg) _ (slots_lt _ _ _ (by omega))]
+  exact slots_balanced _ (by omega) k (rr + 1) i1 i2 hi1 hi2
+
+/-- and nothing else is ever chosen -/
+theorem rr_only_candidates (ss : List Server) : ∀ (k rr c : Nat), some c ∈ rrRun ss k rr → c ∈ candidates ss := by
+  intro k
+  induction k with
+  | zero => intro rr c h; simp [rrRun] at h
+  | succ k ih =>
+    intro rr c h
+    rw [rrRun] at h
+    rcases List.mem_cons.mp h with h | h
+    · have := h.symm
+      unfold next at this
+      simp only at this
+      split at this
+      · simp at this
+      · exact List.mem_of_getElem? this
+    · exact ih _ c h
+
+example : rrRun [⟨true, false, 0⟩, ⟨false, false, 0⟩, ⟨true, false, 0⟩] 5 0 = [some 2, some 0, some 2, some 0, some 2] := by decide
+
 /- non-vacuity -/
 example : (next .roundRobin [⟨true, false, 0⟩, ⟨false, false, 0⟩, ⟨true, false, 0⟩, ⟨true, true, 0⟩] 0 0).1 = some 2 := by decide
 example : (next .first [⟨false, false, 0⟩, ⟨true, true, 0⟩] 0 0).1 = some 1 := by decide
